@@ -420,10 +420,54 @@ fn history<N: Universe, Ty: EdgeType + Clone, S: BuildHasher + Default + Clone>(
     Ok(())
 }
 
+/// `into_graph::<u8>()` at the capacity of the index type: a `Graph<_, _, _, u8>` holds up to 255 nodes and 255 edges
+/// (index 255 is the end marker); the conversion must succeed exactly up to there and panic (documented) beyond.
+fn into_graph_at_the_index_limit<Ty: EdgeType + Clone>(cx: &mut Cx, rng: &mut Rng, tn: &str) -> R {
+    cx.config = format!("GraphMap<u32,{}>/into_graph::<u8>", tn);
+    let n = *rng.pick(&[254usize, 255, 255, 256]);
+    let m = *rng.pick(&[0usize, 254, 255, 255, 256]);
+    let mut g = GraphMap::<u32, u32, Ty>::with_capacity(0, 0);
+    for i in 0..n {
+        g.add_node(i as u32);
+    }
+    // m distinct pairs (i, j), i < j
+    let mut added = 0;
+    'fill: for d in 1..n {
+        for i in 0..n - d {
+            if added == m {
+                break 'fill;
+            }
+            g.add_edge(i as u32, (i + d) as u32, (1000 + added) as u32);
+            added += 1;
+        }
+    }
+    cx.log(|| format!("GraphMap with {} nodes and {} edges -> into_graph::<u8>()", n, added));
+    cx.count(&format!("into_graph::<u8>:{}-nodes/{}-edges", n, added));
+    let fits = n <= 255 && added <= 255;
+    let gc = g.clone();
+    match catch(move || gc.into_graph::<u8>()) {
+        Ok(gr) => {
+            cx.ensure(fits, "GraphMap:into_graph-beyond-index-type-did-not-panic", || format!("{} nodes / {} edges converted into a Graph<u8>", n, added))?;
+            cx.ensure(gr.node_count() == n && gr.edge_count() == added, "GraphMap:into_graph-counts", || format!("{} / {} instead of {} / {}", gr.node_count(), gr.edge_count(), n, added))?;
+            let mut es: Vec<(u32, u32, u32)> = gr.edge_references().map(|e| (gr[e.source()], gr[e.target()], *e.weight())).collect();
+            es.sort();
+            let mut want: Vec<(u32, u32, u32)> = g.all_edges().map(|(a, b, w)| (a, b, *w)).collect();
+            want.sort();
+            cx.ensure(es == want, "GraphMap:into_graph-edges", || "edge list differs after conversion at the index limit".into())?;
+        }
+        Err(p) => cx.ensure(!fits, "GraphMap:into_graph-panics-although-it-fits", || format!("{} nodes / {} edges fit a Graph<u8> (255 / 255) but into_graph panicked: {}", n, added, p.short()))?,
+    }
+    Ok(())
+}
+
 pub fn case(cx: &mut Cx, rng: &mut Rng) -> R {
     use fxhash::FxBuildHasher;
     use petgraph::{Directed, Undirected};
     use std::collections::hash_map::RandomState;
+    if !cx.small && rng.chance(1, 250) {
+        cx.note_case(rng.next_u64(), true);
+        return if rng.coin() { into_graph_at_the_index_limit::<Directed>(cx, rng, "Directed") } else { into_graph_at_the_index_limit::<Undirected>(cx, rng, "Undirected") };
+    }
     macro_rules! pick_hasher {
         ($N:ty, $Ty:ty) => {
             match rng.below(3) {
